@@ -496,7 +496,8 @@ def replay(ctx, rec):
 MANIFEST = {
     "text": "Exploration: (a) rally's real Composite/RequestTiming/scroll runners and executor over a simulated node on a virtual clock, concurrent clients in "
     "one loop; (b) generated trees of nested request contexts on the real RequestContextHolder with nodes as separate asyncio tasks, arbitrary wire "
-    "times and lingering exits, several trees interleaved. Every context's recorded start/end is compared with min start / max end over the uniquely "
+    "times and lingering exits, several trees interleaved; in both classes a share of the requests fail (request timeout, refused connection + transport retry, error status under "
+    "on-error=continue; context nodes left through an exception). Every context's recorded start/end is compared with min start / max end over the uniquely "
     "identified wire requests of its subtree; foreign timestamps are reported as leaks.",
     "note": "Trusts the virtual-time loop; class (b) drives the holder API directly with on_request_start/on_request_end as the wire events.",
     "technique": "runtime monitor: unique-id wire history + tree-derived expected spans, checked on recorded contexts (virtual time, seeded task interleavings)",
